@@ -139,22 +139,24 @@ Proof.
     (wf_casesb cases && (fix go (cs : list scase) : bool := match cs with [] => true | c :: r => swfl_local (sc_body c) && go r end) cases).
   rewrite W. cbn [andb]. clear W. induction A as [|c r H _ IH]; [reflexivity|]. rewrite swfl_local_eq, H. exact IH.
 Qed.
-Lemma ifok1b_switch_intro tg op ol cases : Forall (fun c : scase => ifokb (sc_body c) = true) cases -> ifok1b (SSwitch tg op ol cases) = true.
+Lemma ifok1b_switch_intro tg op ol cases : cases <> [] -> Forall (fun c : scase => ifokb (sc_body c) = true) cases -> ifok1b (SSwitch tg op ol cases) = true.
 Proof.
-  intros A.
+  intros NE A.
   change (ifok1b (SSwitch tg op ol cases)) with
-      ((fix go (cs : list scase) : bool := match cs with [] => true | c :: r => ifok_local (sc_body c) && go r end) cases).
-  induction A as [|c r H _ IH]; [reflexivity|]. rewrite ifok_local_eq, H. exact IH.
+      (negb (match cases with [] => true | _ => false end) &&
+       (fix go (cs : list scase) : bool := match cs with [] => true | c :: r => ifok_local (sc_body c) && go r end) cases).
+  apply andb_true_intro. split; [destruct cases; [congruence|reflexivity]|].
+  clear NE. induction A as [|c r H _ IH]; [reflexivity|]. rewrite ifok_local_eq, H. exact IH.
 Qed.
-Lemma good_switch lo hi tg op ol cases : (lo < tg <= hi)%nat -> GoodK lo (pred tg) cases -> wf_casesb cases = true ->
+Lemma good_switch lo hi tg op ol cases : (lo < tg <= hi)%nat -> GoodK lo (pred tg) cases -> wf_casesb cases = true -> cases <> [] ->
   Good lo hi [SSwitch tg op ol cases].
 Proof.
-  intros R (N & F & O) W. repeat split.
+  intros R (N & F & O) W NE. repeat split.
   - cbn [tags]. rewrite tags1_switch, app_nil_r. constructor; [|exact N]. intros I. rewrite Forall_forall in F. specialize (F _ I). lia.
   - cbn [tags]. rewrite tags1_switch, app_nil_r. constructor; [exact R|]. eapply Forall_impl; [|exact F]. cbn. intros; lia.
   - apply okb_one.
     + apply swf1b_switch_intro; [exact W|]. eapply Forall_impl; [|exact O]. intros c H. apply (okb_swfb _ H).
-    + apply ifok1b_switch_intro. eapply Forall_impl; [|exact O]. intros c H. apply (okb_swfb _ H).
+    + apply ifok1b_switch_intro; [exact NE|]. eapply Forall_impl; [|exact O]. intros c H. apply (okb_swfb _ H).
 Qed.
 
 (* the bookkeeping of parse_cases: values seen so far, default seen so far *)
@@ -365,7 +367,7 @@ Proof.
       { repeat split; cbn; try constructor; try lia; try (intros v []). }
       destruct (advs_facts (adv ts4) ts' (Acases _ _ _ _ _ _ _ _ _ _ _ _ E5 _ (advs_refl _)) EO4) as [L5 _].
       assert (GS : Good (len ts') (len ts) [SSwitch (len ts) operand oline (c0 :: l)]).
-      { apply good_switch; [lia| |exact WK]. eapply goodk_weaken; [| |exact GK]; lia. }
+      { apply good_switch; [lia| |exact WK|discriminate]. eapply goodk_weaken; [| |exact GK]; lia. }
       destruct pre as [c|]; [|exact GS]. cbn [app]. apply good_cons_plain; [reflexivity|reflexivity|reflexivity|exact GS].
     + (* parse_cases *)
       intros script bs cs brace ts acc seen hasdef imp l imp' ts' hi EO H LH Hacc KI. rewrite parse_cases_unfold in H.
